@@ -20,3 +20,40 @@ Theorem c35_exhaustion_fails : forall mask n,
   nth_mark mask n = None <-> (popcount mask <= n)%nat.
 Proof. exact nth_mark_none_iff. Qed.
 Print Assumptions c35_exhaustion_fails.
+
+(* Every number that fits the mask maps to a mark inside the mask and back to the same number. *)
+Theorem c35_roundtrip : forall mask n,
+  n < 2 ^ N.of_nat (popcount mask) ->
+  exists mk, map_number_to_mark mask n = Some mk
+             /\ N.land mk mask = mk
+             /\ map_mark_to_number mask mk = Some n.
+Proof. exact roundtrip. Qed.
+Print Assumptions c35_roundtrip.
+
+(* A number that does not fit the mask is refused (after Go's uint32 truncation). *)
+Theorem c35_number_too_big_fails : forall mask n,
+  2 ^ N.of_nat (popcount mask) <= trunc32 n -> map_number_to_mark mask n = None.
+Proof. exact number_too_big_fails. Qed.
+Print Assumptions c35_number_too_big_fails.
+
+(* A mark with a bit outside the mask is refused. *)
+Theorem c35_incompatible_mark_fails : forall mask mark,
+  N.land mark mask <> mark -> map_mark_to_number mask mark = None.
+Proof. exact incompatible_mark_fails. Qed.
+Print Assumptions c35_incompatible_mark_fails.
+
+(* Whole-history statement: for EVERY mask and EVERY sequence of manager operations the outputs of the
+   model satisfy the specification oracle of Spec.v (fresh distinct single bits inside the mask until
+   exhaustion, then failure; block allocation takes min(size, free) fresh bits; the counters are exact;
+   number<->mark conversions are the bit deposit/extract of the mask).  The same oracle is evaluated on
+   the implementation's outputs by the correspondence run. *)
+Theorem c35_model_meets_spec : forall mask ops,
+  ok_trace mask ops (run (new_mgr mask) ops) = true.
+Proof. exact model_meets_spec. Qed.
+Print Assumptions c35_model_meets_spec.
+
+(* Non-vacuity: a concrete mask with several bits, exhaustion and a round trip. *)
+Example c35_example :
+  run (new_mgr 0xf0) [OpNextSingle; OpNextBlock 5; OpNextSingle; OpN2M 5; OpM2N 80; OpN2M 16]
+  = [OMark 16; OBlock 224 3; OErr; OMark 80; OInt 5; OErr].
+Proof. vm_compute. reflexivity. Qed.
